@@ -136,7 +136,7 @@ def is_repo_function(f):
 
 # ------------------------------------------------------------------ scopes / closures
 class Scope:
-    __slots__ = ("vars", "parent", "fn_globals", "cells", "klass", "self0", "fn_qual", "fn_node")
+    __slots__ = ("vars", "parent", "fn_globals", "cells", "klass", "self0", "fn_qual", "fn_node", "gnames")
 
     def __init__(self, parent=None, fn_globals=None, cells=None):
         self.vars = {}
@@ -147,6 +147,7 @@ class Scope:
         self.cells = cells or {}
         self.klass = None
         self.self0 = None
+        self.gnames = parent.gnames if parent is not None else None      # names declared ``global`` in the enclosing function
 
     def lookup(self, name):
         s = self
@@ -372,6 +373,7 @@ class Interp:
         self.loop_contracts = {}            # (function qualname, loop ordinal) -> handler(it, stmt, scope)
         self.comp_contracts = {}            # (function qualname, comprehension ordinal) -> handler(it, expr, scope)
         self.pow_uf = False
+        self.global_undo = []
 
     # ---------------------------------------------------------------- solver / forking
     def solver(self):
@@ -468,6 +470,12 @@ class Interp:
             except BaseException:
                 pass
         self.gens = []
+        for g, name, had, old in reversed(self.global_undo):
+            if had:
+                g[name] = old
+            else:
+                g.pop(name, None)
+        self.global_undo = []
 
     # ---------------------------------------------------------------- calling
     def call(self, fn, args=(), kwargs=None):
@@ -539,6 +547,14 @@ class Interp:
                 raise
             except Exception as e:
                 raise PyExc(e)
+        # object.__setattr__ (also as super().__setattr__ from an overriding __setattr__) stores a reference on a real heap object: any value may be stored
+        if fn is object.__setattr__ and len(args) == 3 and isinstance(args[1], str) and not kwargs:
+            object.__setattr__(args[0], args[1], args[2])
+            return None
+        if getattr(fn, "__name__", "") == "__setattr__" and getattr(fn, "__objclass__", None) is object and hasattr(fn, "__self__") \
+                and len(args) == 2 and isinstance(args[0], str) and not kwargs:
+            object.__setattr__(fn.__self__, args[0], args[1])
+            return None
         for a in list(args) + list(kwargs.values()):
             if has_sym(a, 3) or isinstance(a, (IFunc, IGen)):
                 raise Unsupported(f"native call {getattr(fn, '__qualname__', fn)!r} with symbolic/interpreted argument {type(a).__name__}")
@@ -594,6 +610,7 @@ class Interp:
         node = f.node
         a = node.args
         sc = Scope(f.scope)
+        sc.gnames = None
         sc.klass = f.scope.klass if f.scope else None
         posnames = [x.arg for x in a.posonlyargs + a.args]
         args = list(args)
@@ -931,7 +948,9 @@ class Interp:
         raise _Continue()
 
     def x_Global(self, st, sc):
-        raise Unsupported("global statement")
+        # module-level state: writes go to the function's real globals and are undone when the path ends (cleanup), so that one
+        # explored path does not see what another one wrote
+        sc.gnames = set(sc.gnames or ()) | set(st.names)
 
     def x_Nonlocal(self, st, sc):
         raise Unsupported("nonlocal statement")
@@ -1218,6 +1237,11 @@ class Interp:
 
     # ---------------------------------------------------------------- assignment
     def _store_name(self, name, v, sc):
+        if sc.gnames and name in sc.gnames and name not in sc.vars:
+            g = sc.fn_globals
+            self.global_undo.append((g, name, name in g, g.get(name)))
+            g[name] = v
+            return
         s = sc
         while s is not None:
             if name in s.cells and name not in s.vars:
